@@ -295,7 +295,7 @@ struct Run {
     }
     void on_pdf(const std::vector<double> &cand, std::vector<double> &vals) {
         if (!open) {   // evaluation of the current state (initialisation of the cached pdf values)
-            VF_REQUIRE("C15.pdf-batch", cand.size() == st.size() && same_bits(cand, st), name << ": pdf called outside an iteration with " << cand.size() / (size_t)c.D << " points that are not the current state");
+            VF_REQUIRE("C15.pdf-batch", cand.size() == st.size() && same_bits(cand, st), name << ": pdf called with " << cand.size() / (size_t)c.D << " point(s), first " << (cand.size() >= (size_t)c.D ? vec9(cand.data(), c.D) : std::string("-")) << ", while no proposal that passed inside() awaits evaluation and the points are not the current state" << last_iter);
             VF_REQUIRE("C15.pdf-batch", vals.size() == (size_t)c.N, name << ": pdf initialisation passed a values vector of size " << vals.size());
             for (int i = 0; i < c.N; i++) vals[(size_t)i] = c.pdf(&cand[(size_t)(i * c.D)]);
             pv = vals; ctx.count("pdf-init-calls"); return;
